@@ -24,7 +24,7 @@ Section ChainSound.
   Notation mflimit := (hc_mflimit s0 srcSize).
   Notation matchlimit := (hc_matchlimit s0 srcSize).
   Notation lo := dictIdx.
-  Notation out_ok := (out_ok vrd dictIdx s0 srcSize).
+  Notation out_ok := (out_ok vrd s0 srcSize dictIdx).
 
   Lemma climits : mflimit = iend - 12 /\ matchlimit = iend - 5 /\ iend = s0 + srcSize.
   Proof. unfold hc_mflimit, hc_matchlimit, hc_iend, MFLIMIT, LASTLITERALS. lia. Qed.
@@ -107,7 +107,7 @@ Section ChainSound.
     out_ok (rev_append (e_bytes e) rout) (ip + ml) /\ e_op e = Z.of_nat (length (rev_append (e_bytes e) rout)).
   Proof.
     intros Ho Ha Hm Hi Hl e Hret Hop.
-    split; [apply (out_ok_snoc vrd dictIdx s0 srcSize rout anchor ip ml off op limit oend Ho Ha Hm Hi Hl Hret)|].
+    split; [apply (out_ok_snoc vrd s0 srcSize dictIdx rout anchor ip ml off op limit oend Ho Ha Hm Hi Hl Hret)|].
     destruct Hm as (M1 & M2 & _).
     pose proof (encodeSequence_encoding vrd ip anchor op ml off limit oend Ha ltac:(unfold MINMATCH; lia) ltac:(lia)) as HE.
     cbv zeta in HE. specialize (HE Hret). destruct HE as (_ & HE). fold e in HE.
